@@ -767,7 +767,7 @@ class Script(object):
 
         if len(self.stack) == 0:
             return False
-        if self.stack.pop() == b'':
+        if decode_num(self.stack.pop()) == 0:
             return False
 
         return True
@@ -878,7 +878,7 @@ class Stack(list):
         return True
 
     def op_verify(self):
-        if self.pop() == b'':
+        if decode_num(self.pop()) == 0:
             return False
         return True
 
@@ -920,7 +920,7 @@ class Stack(list):
     def op_ifdup(self):
         if not len(self):
             raise ValueError("Stack op_ifdup method requires minimum of 1 stack item")
-        if self[-1] != b'':
+        if decode_num(self[-1]) != 0:
             self.append(self[-1])
         return True
 
@@ -1010,13 +1010,13 @@ class Stack(list):
     def op_not(self):
         if not self.is_arithmetic():
             return False
-        self.append(b'\1' if self.pop() == b'' else b'')
+        self.append(b'\1' if self.pop_as_number() == 0 else b'')
         return True
 
     def op_0notequal(self):
         if not self.is_arithmetic():
             return False
-        self.append(b'' if self.pop() == b'' else b'\1')
+        self.append(b'' if self.pop_as_number() == 0 else b'\1')
         return True
 
     def op_add(self):
@@ -1042,9 +1042,9 @@ class Stack(list):
     def op_booland(self):
         if not self.is_arithmetic(2):
             return False
-        a = self.pop()
-        b = self.pop()
-        if a != b'' and b != b'':
+        a = self.pop_as_number()
+        b = self.pop_as_number()
+        if a != 0 and b != 0:
             self.append(b'\1')
         else:
             self.append(b'')
@@ -1053,9 +1053,9 @@ class Stack(list):
     def op_boolor(self):
         if not self.is_arithmetic(2):
             return False
-        a = self.pop()
-        b = self.pop()
-        if a != b'' or b != b'':
+        a = self.pop_as_number()
+        b = self.pop_as_number()
+        if a != 0 or b != 0:
             self.append(b'\1')
         else:
             self.append(b'')
@@ -1064,7 +1064,7 @@ class Stack(list):
     def op_numequal(self):
         if not self.is_arithmetic(2):
             return False
-        if self.pop() == self.pop():
+        if self.pop_as_number() == self.pop_as_number():
             self.append(b'\1')
         else:
             self.append(b'')
@@ -1077,7 +1077,7 @@ class Stack(list):
     def op_numnotequal(self):
         if not self.is_arithmetic(2):
             return False
-        if self.pop() != self.pop():
+        if self.pop_as_number() != self.pop_as_number():
             self.append(b'\1')
         else:
             self.append(b'')
